@@ -1,1 +1,634 @@
-//! response encoder (filled in below)
+//! Response side of the reference codec: a plain data model of every CQL v4 response (plus the
+//! ScyllaDB extensions the driver understands) and an encoder that records the position of every
+//! length / count / flag / id field it writes (`W::fields`). Written from native_protocol_v4.spec
+//! sections 4.2 (responses), 4.2.5.2 (rows metadata), 4.2.5.4 (prepared), 4.2.6 (events), 9 (errors).
+
+use super::{Comp, FieldKind as K, W};
+
+// ---------------------------------------------------------------------------------------------
+// column types
+// ---------------------------------------------------------------------------------------------
+
+#[derive(Debug, Clone, PartialEq, Eq)]
+pub enum Ty {
+    /// native type by protocol id (0x0001..0x0015 except 0x000A)
+    Native(u16),
+    /// id 0x0000 with an arbitrary class string (used for unparseable / unknown classes)
+    CustomRaw(String),
+    List(Box<Ty>),
+    Set(Box<Ty>),
+    Map(Box<Ty>, Box<Ty>),
+    Udt { ks: String, name: String, fields: Vec<(String, Ty)> },
+    Tuple(Vec<Ty>),
+    /// no binary id in v4: always sent as custom class `VectorType(<elem class>, <dim>)`
+    Vector(Box<Ty>, u16),
+    /// send the inner type as a custom class string (id 0x0000) instead of its binary id
+    AsClass(Box<Ty>),
+}
+
+pub mod native {
+    pub const ASCII: u16 = 0x01;
+    pub const BIGINT: u16 = 0x02;
+    pub const BLOB: u16 = 0x03;
+    pub const BOOLEAN: u16 = 0x04;
+    pub const COUNTER: u16 = 0x05;
+    pub const DECIMAL: u16 = 0x06;
+    pub const DOUBLE: u16 = 0x07;
+    pub const FLOAT: u16 = 0x08;
+    pub const INT: u16 = 0x09;
+    pub const TIMESTAMP: u16 = 0x0B;
+    pub const UUID: u16 = 0x0C;
+    pub const TEXT: u16 = 0x0D;
+    pub const VARINT: u16 = 0x0E;
+    pub const TIMEUUID: u16 = 0x0F;
+    pub const INET: u16 = 0x10;
+    pub const DATE: u16 = 0x11;
+    pub const TIME: u16 = 0x12;
+    pub const SMALLINT: u16 = 0x13;
+    pub const TINYINT: u16 = 0x14;
+    pub const DURATION: u16 = 0x15;
+    pub const ALL: [u16; 20] = [ASCII, BIGINT, BLOB, BOOLEAN, COUNTER, DECIMAL, DOUBLE, FLOAT, INT, TIMESTAMP, UUID, TEXT, VARINT, TIMEUUID, INET, DATE, TIME, SMALLINT, TINYINT, DURATION];
+}
+
+/// CQL name of a native id (the vocabulary of the canonical dumps)
+pub fn native_name(id: u16) -> &'static str {
+    match id {
+        0x01 => "ascii",
+        0x02 => "bigint",
+        0x03 => "blob",
+        0x04 => "boolean",
+        0x05 => "counter",
+        0x06 => "decimal",
+        0x07 => "double",
+        0x08 => "float",
+        0x09 => "int",
+        0x0B => "timestamp",
+        0x0C => "uuid",
+        0x0D => "text",
+        0x0E => "varint",
+        0x0F => "timeuuid",
+        0x10 => "inet",
+        0x11 => "date",
+        0x12 => "time",
+        0x13 => "smallint",
+        0x14 => "tinyint",
+        0x15 => "duration",
+        _ => "?",
+    }
+}
+
+/// Java marshal class of a native id (Cassandra's AbstractType names)
+fn native_class(id: u16) -> &'static str {
+    match id {
+        0x01 => "AsciiType",
+        0x02 => "LongType",
+        0x03 => "BytesType",
+        0x04 => "BooleanType",
+        0x05 => "CounterColumnType",
+        0x06 => "DecimalType",
+        0x07 => "DoubleType",
+        0x08 => "FloatType",
+        0x09 => "Int32Type",
+        0x0B => "TimestampType",
+        0x0C => "UUIDType",
+        0x0D => "UTF8Type",
+        0x0E => "IntegerType",
+        0x0F => "TimeUUIDType",
+        0x10 => "InetAddressType",
+        0x11 => "SimpleDateType",
+        0x12 => "TimeType",
+        0x13 => "ShortType",
+        0x14 => "ByteType",
+        0x15 => "DurationType",
+        _ => "UnknownType",
+    }
+}
+
+fn hex(s: &str) -> String {
+    s.bytes().map(|b| format!("{b:02x}")).collect()
+}
+
+const MARSHAL: &str = "org.apache.cassandra.db.marshal.";
+
+/// The class string Cassandra/ScyllaDB would send for a type (TypeParser syntax).
+pub fn class_string(t: &Ty) -> String {
+    match t {
+        Ty::Native(id) => format!("{MARSHAL}{}", native_class(*id)),
+        Ty::CustomRaw(s) => s.clone(),
+        Ty::List(e) => format!("{MARSHAL}ListType({})", class_string(e)),
+        Ty::Set(e) => format!("{MARSHAL}SetType({})", class_string(e)),
+        Ty::Map(k, v) => format!("{MARSHAL}MapType({},{})", class_string(k), class_string(v)),
+        Ty::Tuple(ts) => format!("{MARSHAL}TupleType({})", ts.iter().map(class_string).collect::<Vec<_>>().join(",")),
+        Ty::Udt { ks, name, fields } => {
+            let mut s = format!("{MARSHAL}UserType({ks},{}", hex(name));
+            for (f, t) in fields {
+                s.push_str(&format!(",{}:{}", hex(f), class_string(t)));
+            }
+            s.push(')');
+            s
+        }
+        Ty::Vector(e, d) => format!("{MARSHAL}VectorType({}, {d})", class_string(e)),
+        Ty::AsClass(t) => class_string(t),
+    }
+}
+
+/// Canonical text of the type a conforming decoder arrives at.
+pub fn type_dump(t: &Ty) -> String {
+    match t {
+        Ty::Native(id) => native_name(*id).to_string(),
+        Ty::CustomRaw(s) => format!("custom<{s}>"),
+        Ty::List(e) => format!("list<{}>", type_dump(e)),
+        Ty::Set(e) => format!("set<{}>", type_dump(e)),
+        Ty::Map(k, v) => format!("map<{},{}>", type_dump(k), type_dump(v)),
+        Ty::Tuple(ts) => format!("tuple<{}>", ts.iter().map(type_dump).collect::<Vec<_>>().join(",")),
+        Ty::Udt { ks, name, fields } => format!("udt<{ks}.{name}{{{}}}>", fields.iter().map(|(f, t)| format!("{f}:{}", type_dump(t))).collect::<Vec<_>>().join(",")),
+        Ty::Vector(e, d) => format!("vector<{},{d}>", type_dump(e)),
+        Ty::AsClass(t) => type_dump(t),
+    }
+}
+
+pub fn encode_type(w: &mut W, t: &Ty) {
+    match t {
+        Ty::Native(id) => w.u16f("type.id", K::Id, *id),
+        Ty::CustomRaw(s) => {
+            w.u16f("type.id", K::Id, 0);
+            w.string("type.custom.len", s);
+        }
+        Ty::Vector(..) | Ty::AsClass(_) => {
+            w.u16f("type.id", K::Id, 0);
+            w.string("type.custom.len", &class_string(t));
+        }
+        Ty::List(e) => {
+            w.u16f("type.id", K::Id, 0x20);
+            encode_type(w, e);
+        }
+        Ty::Map(k, v) => {
+            w.u16f("type.id", K::Id, 0x21);
+            encode_type(w, k);
+            encode_type(w, v);
+        }
+        Ty::Set(e) => {
+            w.u16f("type.id", K::Id, 0x22);
+            encode_type(w, e);
+        }
+        Ty::Udt { ks, name, fields } => {
+            w.u16f("type.id", K::Id, 0x30);
+            w.string("type.udt.ks.len", ks);
+            w.string("type.udt.name.len", name);
+            w.u16f("type.udt.nfields", K::Count, fields.len() as u16);
+            for (f, t) in fields {
+                w.string("type.udt.field.len", f);
+                encode_type(w, t);
+            }
+        }
+        Ty::Tuple(ts) => {
+            w.u16f("type.id", K::Id, 0x31);
+            w.u16f("type.tuple.n", K::Count, ts.len() as u16);
+            for t in ts {
+                encode_type(w, t);
+            }
+        }
+    }
+}
+
+// ---------------------------------------------------------------------------------------------
+// response model
+// ---------------------------------------------------------------------------------------------
+
+#[derive(Debug, Clone, PartialEq, Eq)]
+pub struct ColSpec {
+    pub ks: String,
+    pub table: String,
+    pub name: String,
+    pub ty: Ty,
+}
+
+/// `<metadata>` of a Rows result (4.2.5.2) with ScyllaDB's metadata-id extension bit 0x0008.
+#[derive(Debug, Clone, PartialEq, Eq)]
+pub struct RowsMeta {
+    /// Some => Global_tables_spec flag; columns then carry no table spec on the wire
+    pub global: Option<(String, String)>,
+    /// Some => Has_more_pages flag
+    pub paging_state: Option<Vec<u8>>,
+    pub no_metadata: bool,
+    /// Some => Metadata_changed flag (only meaningful when the extension is negotiated)
+    pub new_metadata_id: Option<Vec<u8>>,
+    pub cols: Vec<ColSpec>,
+}
+
+#[derive(Debug, Clone, PartialEq, Eq)]
+pub struct Rows {
+    pub meta: RowsMeta,
+    /// each row has `meta.cols.len()` cells; None = null
+    pub rows: Vec<Vec<Option<Vec<u8>>>>,
+}
+
+#[derive(Debug, Clone, PartialEq, Eq)]
+pub struct Prepared {
+    pub id: Vec<u8>,
+    /// written iff the metadata-id extension is negotiated
+    pub result_metadata_id: Vec<u8>,
+    pub global: Option<(String, String)>,
+    pub pk_indexes: Vec<u16>,
+    pub cols: Vec<ColSpec>,
+    pub result: RowsMeta,
+}
+
+#[derive(Debug, Clone, PartialEq, Eq)]
+pub enum SchemaTarget {
+    Keyspace,
+    Table(String),
+    Type(String),
+    Function(String, Vec<String>),
+    Aggregate(String, Vec<String>),
+}
+
+#[derive(Debug, Clone, PartialEq, Eq)]
+pub struct SchemaChange {
+    /// CREATED / UPDATED / DROPPED (anything else is passed through)
+    pub change: String,
+    pub keyspace: String,
+    pub target: SchemaTarget,
+}
+
+#[derive(Debug, Clone, PartialEq, Eq)]
+pub struct Inet {
+    pub addr: Vec<u8>,
+    pub port: i32,
+}
+
+#[derive(Debug, Clone, PartialEq, Eq)]
+pub enum Event {
+    Topology { change: String, addr: Inet },
+    Status { change: String, addr: Inet },
+    Schema(SchemaChange),
+    ClientRoutes { change: String, connection_ids: Vec<String>, host_ids: Vec<String> },
+}
+
+#[derive(Debug, Clone, PartialEq, Eq)]
+pub enum ErrExtra {
+    None,
+    Unavailable { cl: u16, required: i32, alive: i32 },
+    WriteTimeout { cl: u16, received: i32, blockfor: i32, write_type: String },
+    ReadTimeout { cl: u16, received: i32, blockfor: i32, data_present: u8 },
+    ReadFailure { cl: u16, received: i32, blockfor: i32, numfailures: i32, data_present: u8 },
+    FunctionFailure { ks: String, function: String, arg_types: Vec<String> },
+    WriteFailure { cl: u16, received: i32, blockfor: i32, numfailures: i32, write_type: String },
+    AlreadyExists { ks: String, table: String },
+    Unprepared { id: Vec<u8> },
+    RateLimit { op_type: u8, rejected_by_coordinator: u8 },
+}
+
+#[derive(Debug, Clone, PartialEq, Eq)]
+pub struct ErrorBody {
+    pub code: i32,
+    pub message: String,
+    pub extra: ErrExtra,
+}
+
+#[derive(Debug, Clone, PartialEq, Eq)]
+pub enum ResultBody {
+    Void,
+    Rows(Rows),
+    SetKeyspace(String),
+    Prepared(Prepared),
+    SchemaChange(SchemaChange),
+}
+
+#[derive(Debug, Clone, PartialEq, Eq)]
+pub enum Response {
+    Error(ErrorBody),
+    Ready,
+    Authenticate(String),
+    Supported(Vec<(String, Vec<String>)>),
+    Result(ResultBody),
+    Event(Event),
+    AuthChallenge(Option<Vec<u8>>),
+    AuthSuccess(Option<Vec<u8>>),
+}
+
+impl Response {
+    pub fn opcode(&self) -> u8 {
+        use super::opcode::*;
+        match self {
+            Response::Error(_) => ERROR,
+            Response::Ready => READY,
+            Response::Authenticate(_) => AUTHENTICATE,
+            Response::Supported(_) => SUPPORTED,
+            Response::Result(_) => RESULT,
+            Response::Event(_) => EVENT,
+            Response::AuthChallenge(_) => AUTH_CHALLENGE,
+            Response::AuthSuccess(_) => AUTH_SUCCESS,
+        }
+    }
+    /// short stable name of the response kind (decode-site vocabulary)
+    pub fn kind_name(&self) -> &'static str {
+        match self {
+            Response::Error(_) => "ERROR",
+            Response::Ready => "READY",
+            Response::Authenticate(_) => "AUTHENTICATE",
+            Response::Supported(_) => "SUPPORTED",
+            Response::Result(ResultBody::Void) => "RESULT/void",
+            Response::Result(ResultBody::Rows(_)) => "RESULT/rows",
+            Response::Result(ResultBody::SetKeyspace(_)) => "RESULT/set_keyspace",
+            Response::Result(ResultBody::Prepared(_)) => "RESULT/prepared",
+            Response::Result(ResultBody::SchemaChange(_)) => "RESULT/schema_change",
+            Response::Event(_) => "EVENT",
+            Response::AuthChallenge(_) => "AUTH_CHALLENGE",
+            Response::AuthSuccess(_) => "AUTH_SUCCESS",
+        }
+    }
+}
+
+/// Frame body extensions (4.2: tracing id, warnings, custom payload - in that order).
+#[derive(Debug, Clone, PartialEq, Eq, Default)]
+pub struct Ext {
+    pub tracing: Option<[u8; 16]>,
+    pub warnings: Option<Vec<String>>,
+    pub payload: Option<Vec<(String, Vec<u8>)>>,
+}
+
+impl Ext {
+    pub fn flags(&self) -> u8 {
+        (if self.tracing.is_some() { super::FLAG_TRACING } else { 0 }) | (if self.warnings.is_some() { super::FLAG_WARNING } else { 0 }) | (if self.payload.is_some() { super::FLAG_CUSTOM_PAYLOAD } else { 0 })
+    }
+}
+
+// ---------------------------------------------------------------------------------------------
+// encoder
+// ---------------------------------------------------------------------------------------------
+
+fn encode_col_specs(w: &mut W, global: bool, cols: &[ColSpec]) {
+    for c in cols {
+        if !global {
+            w.string("colspec.ks.len", &c.ks);
+            w.string("colspec.table.len", &c.table);
+        }
+        w.string("colspec.name.len", &c.name);
+        encode_type(w, &c.ty);
+    }
+}
+
+/// Rows `<metadata>`. Site prefix differs between a Rows result and the result metadata nested in Prepared.
+pub fn encode_rows_meta(w: &mut W, m: &RowsMeta, nested_in_prepared: bool) {
+    let mut flags = 0i32;
+    if m.global.is_some() {
+        flags |= 0x0001;
+    }
+    if m.paging_state.is_some() {
+        flags |= 0x0002;
+    }
+    if m.no_metadata {
+        flags |= 0x0004;
+    }
+    if m.new_metadata_id.is_some() {
+        flags |= 0x0008;
+    }
+    let (sf, sc, sp, si) = if nested_in_prepared {
+        ("prepared.result_meta.flags", "prepared.result_meta.col_count", "prepared.result_meta.paging_state.len", "prepared.result_meta.new_metadata_id.len")
+    } else {
+        ("rows.meta.flags", "rows.meta.col_count", "rows.meta.paging_state.len", "rows.meta.new_metadata_id.len")
+    };
+    w.i32f(sf, K::Flags, flags);
+    w.i32f(sc, K::Count, m.cols.len() as i32);
+    if let Some(p) = &m.paging_state {
+        w.bytes_opt(sp, Some(p));
+    }
+    if let Some(id) = &m.new_metadata_id {
+        w.short_bytes(si, id);
+    }
+    if !m.no_metadata {
+        if let Some((ks, t)) = &m.global {
+            w.string("global_spec.ks.len", ks);
+            w.string("global_spec.table.len", t);
+        }
+        encode_col_specs(w, m.global.is_some(), &m.cols);
+    }
+}
+
+fn encode_schema_change(w: &mut W, s: &SchemaChange) {
+    w.string("schema_change.change.len", &s.change);
+    let kw = match &s.target {
+        SchemaTarget::Keyspace => "KEYSPACE",
+        SchemaTarget::Table(_) => "TABLE",
+        SchemaTarget::Type(_) => "TYPE",
+        SchemaTarget::Function(..) => "FUNCTION",
+        SchemaTarget::Aggregate(..) => "AGGREGATE",
+    };
+    w.string("schema_change.target.len", kw);
+    w.string("schema_change.keyspace.len", &s.keyspace);
+    match &s.target {
+        SchemaTarget::Keyspace => {}
+        SchemaTarget::Table(n) | SchemaTarget::Type(n) => w.string("schema_change.name.len", n),
+        SchemaTarget::Function(n, args) | SchemaTarget::Aggregate(n, args) => {
+            w.string("schema_change.name.len", n);
+            w.string_list("schema_change.nargs", "schema_change.arg.len", args);
+        }
+    }
+}
+
+fn encode_inet(w: &mut W, a: &Inet) {
+    w.u8f("inet.addr_len", K::Len, a.addr.len() as u8);
+    w.raw(&a.addr);
+    w.i32f("inet.port", K::Id, a.port);
+}
+
+fn encode_error(w: &mut W, e: &ErrorBody) {
+    w.i32f("error.code", K::Id, e.code);
+    w.string("error.message.len", &e.message);
+    match &e.extra {
+        ErrExtra::None => {}
+        ErrExtra::Unavailable { cl, required, alive } => {
+            w.u16f("error.cl", K::Id, *cl);
+            w.i32(*required);
+            w.i32(*alive);
+        }
+        ErrExtra::WriteTimeout { cl, received, blockfor, write_type } => {
+            w.u16f("error.cl", K::Id, *cl);
+            w.i32(*received);
+            w.i32(*blockfor);
+            w.string("error.write_type.len", write_type);
+        }
+        ErrExtra::ReadTimeout { cl, received, blockfor, data_present } => {
+            w.u16f("error.cl", K::Id, *cl);
+            w.i32(*received);
+            w.i32(*blockfor);
+            w.u8f("error.data_present", K::Flags, *data_present);
+        }
+        ErrExtra::ReadFailure { cl, received, blockfor, numfailures, data_present } => {
+            w.u16f("error.cl", K::Id, *cl);
+            w.i32(*received);
+            w.i32(*blockfor);
+            w.i32(*numfailures);
+            w.u8f("error.data_present", K::Flags, *data_present);
+        }
+        ErrExtra::FunctionFailure { ks, function, arg_types } => {
+            w.string("error.ks.len", ks);
+            w.string("error.function.len", function);
+            w.string_list("error.nargs", "error.arg.len", arg_types);
+        }
+        ErrExtra::WriteFailure { cl, received, blockfor, numfailures, write_type } => {
+            w.u16f("error.cl", K::Id, *cl);
+            w.i32(*received);
+            w.i32(*blockfor);
+            w.i32(*numfailures);
+            w.string("error.write_type.len", write_type);
+        }
+        ErrExtra::AlreadyExists { ks, table } => {
+            w.string("error.ks.len", ks);
+            w.string("error.table.len", table);
+        }
+        ErrExtra::Unprepared { id } => w.short_bytes("error.unprepared_id.len", id),
+        ErrExtra::RateLimit { op_type, rejected_by_coordinator } => {
+            w.u8f("error.op_type", K::Id, *op_type);
+            w.u8f("error.rejected", K::Flags, *rejected_by_coordinator);
+        }
+    }
+}
+
+/// Encode a response *body* (after the extensions). `metadata_id_ext`: SCYLLA_USE_METADATA_ID negotiated.
+pub fn encode_body(w: &mut W, r: &Response, metadata_id_ext: bool) {
+    match r {
+        Response::Error(e) => encode_error(w, e),
+        Response::Ready => {}
+        Response::Authenticate(s) => w.string("authenticate.name.len", s),
+        Response::Supported(m) => {
+            w.u16f("supported.n", K::Count, m.len() as u16);
+            for (k, vals) in m {
+                w.string("supported.key.len", k);
+                w.string_list("supported.nvals", "supported.val.len", vals);
+            }
+        }
+        Response::AuthChallenge(b) => w.bytes_opt("auth_challenge.token.len", b.as_deref()),
+        Response::AuthSuccess(b) => w.bytes_opt("auth_success.token.len", b.as_deref()),
+        Response::Event(ev) => match ev {
+            Event::Topology { change, addr } => {
+                w.string("event.type.len", "TOPOLOGY_CHANGE");
+                w.string("event.change.len", change);
+                encode_inet(w, addr);
+            }
+            Event::Status { change, addr } => {
+                w.string("event.type.len", "STATUS_CHANGE");
+                w.string("event.change.len", change);
+                encode_inet(w, addr);
+            }
+            Event::Schema(s) => {
+                w.string("event.type.len", "SCHEMA_CHANGE");
+                encode_schema_change(w, s);
+            }
+            Event::ClientRoutes { change, connection_ids, host_ids } => {
+                w.string("event.type.len", "CLIENT_ROUTES_CHANGE");
+                w.string("event.change.len", change);
+                w.string_list("event.routes.nconn", "event.routes.conn.len", connection_ids);
+                w.string_list("event.routes.nhost", "event.routes.host.len", host_ids);
+            }
+        },
+        Response::Result(res) => match res {
+            ResultBody::Void => w.i32f("result.kind", K::Id, 1),
+            ResultBody::Rows(rows) => {
+                w.i32f("result.kind", K::Id, 2);
+                encode_rows_meta(w, &rows.meta, false);
+                w.i32f("rows.row_count", K::Count, rows.rows.len() as i32);
+                for row in &rows.rows {
+                    for cell in row {
+                        w.bytes_opt("rows.cell.len", cell.as_deref());
+                    }
+                }
+            }
+            ResultBody::SetKeyspace(ks) => {
+                w.i32f("result.kind", K::Id, 3);
+                w.string("set_keyspace.name.len", ks);
+            }
+            ResultBody::Prepared(p) => {
+                w.i32f("result.kind", K::Id, 4);
+                w.short_bytes("prepared.id.len", &p.id);
+                if metadata_id_ext {
+                    w.short_bytes("prepared.result_metadata_id.len", &p.result_metadata_id);
+                }
+                w.i32f("prepared.meta.flags", K::Flags, if p.global.is_some() { 1 } else { 0 });
+                w.i32f("prepared.meta.col_count", K::Count, p.cols.len() as i32);
+                w.i32f("prepared.meta.pk_count", K::Count, p.pk_indexes.len() as i32);
+                for i in &p.pk_indexes {
+                    w.u16(*i);
+                }
+                if let Some((ks, t)) = &p.global {
+                    w.string("global_spec.ks.len", ks);
+                    w.string("global_spec.table.len", t);
+                }
+                encode_col_specs(w, p.global.is_some(), &p.cols);
+                encode_rows_meta(w, &p.result, true);
+            }
+            ResultBody::SchemaChange(s) => {
+                w.i32f("result.kind", K::Id, 5);
+                encode_schema_change(w, s);
+            }
+        },
+    }
+}
+
+pub fn encode_ext(w: &mut W, e: &Ext) {
+    if let Some(t) = &e.tracing {
+        w.raw(t);
+    }
+    if let Some(ws) = &e.warnings {
+        w.string_list("ext.warnings.n", "ext.warning.len", ws);
+    }
+    if let Some(p) = &e.payload {
+        w.u16f("ext.payload.n", K::Count, p.len() as u16);
+        for (k, v) in p {
+            w.string("ext.payload.key.len", k);
+            w.bytes_opt("ext.payload.val.len", Some(v));
+        }
+    }
+}
+
+/// Extensions + body, uncompressed, with the field list.
+pub fn encode_ext_body(e: &Ext, r: &Response, metadata_id_ext: bool) -> W {
+    let mut w = W::new();
+    encode_ext(&mut w, e);
+    encode_body(&mut w, r, metadata_id_ext);
+    w
+}
+
+/// Wrap an (extensions+body) byte string into a response frame: compress if asked, set the
+/// COMPRESSION flag accordingly, write the 9-byte header (version 0x84).
+pub fn frame(ext_flags: u8, stream: i16, opcode: u8, ext_body: &[u8], comp: Comp, matches: bool) -> Vec<u8> {
+    let body = super::cql_compress(comp, ext_body, matches);
+    let flags = ext_flags | if comp != Comp::None { super::FLAG_COMPRESSION } else { 0 };
+    let mut f = Vec::with_capacity(9 + body.len());
+    f.push(0x84);
+    f.push(flags);
+    f.extend_from_slice(&stream.to_be_bytes());
+    f.push(opcode);
+    f.extend_from_slice(&(body.len() as u32).to_be_bytes());
+    f.extend_from_slice(&body);
+    f
+}
+
+/// The five header fields of any frame, in frame coordinates.
+pub fn header_fields() -> Vec<super::Field> {
+    use super::Field;
+    vec![
+        Field { off: 0, width: 1, kind: K::Id, site: "header.version" },
+        Field { off: 1, width: 1, kind: K::Flags, site: "header.flags" },
+        Field { off: 2, width: 2, kind: K::Id, site: "header.stream" },
+        Field { off: 4, width: 1, kind: K::Id, site: "header.opcode" },
+        Field { off: 5, width: 4, kind: K::Len, site: "header.length" },
+    ]
+}
+
+#[cfg(test)]
+mod tests {
+    use super::*;
+    #[test]
+    fn rows_layout_by_hand() {
+        // RESULT Rows, global spec ks.t, one int column "a", one row with value 7 - laid out by hand from the spec
+        let r = Response::Result(ResultBody::Rows(Rows {
+            meta: RowsMeta { global: Some(("ks".into(), "t".into())), paging_state: None, no_metadata: false, new_metadata_id: None, cols: vec![ColSpec { ks: "ks".into(), table: "t".into(), name: "a".into(), ty: Ty::Native(native::INT) }] },
+            rows: vec![vec![Some(vec![0, 0, 0, 7])]],
+        }));
+        let w = encode_ext_body(&Ext::default(), &r, false);
+        let want: Vec<u8> = [&[0, 0, 0, 2][..], &[0, 0, 0, 1], &[0, 0, 0, 1], &[0, 2], b"ks", &[0, 1], b"t", &[0, 1], b"a", &[0, 9], &[0, 0, 0, 1], &[0, 0, 0, 4], &[0, 0, 0, 7]].concat();
+        assert_eq!(w.buf, want);
+    }
+}
